@@ -317,4 +317,40 @@ LenOff(T) == HdrOff(T, "len", 1)
 BodyOff(T) == LenOff(T) + 4
 ChecksumAlg(T) == LET fs == FieldsOf(T) IN fs[CHOOSE i \in 1..Len(fs) : fs[i].kind = "checksum"].alg
 TrailerLen(T) == IF HasKind(T, "checksum") THEN 4 ELSE 0
+---------------------------------------------------------------------------
+(* Frame layout helpers over the bytes one frame encode appended.          *)
+FrameTypes == {T \in TypeNames : HasKind(T, "len")}
+CsumTypes == {T \in TypeNames : HasKind(T, "checksum")}
+LenName(T) == LET fs == FieldsOf(T) IN fs[CHOOSE i \in 1..Len(fs) : fs[i].kind = "len"].name
+CsumName(T) == LET fs == FieldsOf(T) IN fs[CHOOSE i \in 1..Len(fs) : fs[i].kind = "checksum"].name
+
+(* Header bytes before the length field as the pinned layout renders them  *)
+(* (C04/C05 are judged only on frames whose header conforms; otherwise the *)
+(* report belongs to C02).                                                 *)
+RECURSIVE HdrBytes(_, _, _, _)
+HdrBytes(T, E, v, i) ==
+  LET f == FieldsOf(T)[i] IN
+  IF f.kind = "len" THEN <<>>
+  ELSE (CASE f.kind = "int" -> Ord(E, v[f.name])
+          [] f.kind = "fixed" -> PadFixed(v[f.name], f.n, f.pad, f.left)) \o HdrBytes(T, E, v, i + 1)
+
+HeaderConforms(T, v, app) ==
+  /\ Len(app) >= BodyOff(T) + TrailerLen(T)
+  /\ IsPrefixOf(HdrBytes(T, EndianOf(T), v, 1), app)
+
+LenFieldOf(T, app) == Ord(EndianOf(T), SubSeq(app, LenOff(T) + 1, LenOff(T) + 4))
+CorrectLen(T, app) == Digits(Len(app) - BodyOff(T) - TrailerLen(T), 4)
+CsumFieldOf(T, app) == Ord(EndianOf(T), SubSeq(app, Len(app) - 3, Len(app)))
+CorrectCsum(T, app) == Alg(ChecksumAlg(T), Take(app, Len(app) - 4))
+
+(* w with the self-computed fields of a frame replaced by correct values   *)
+FixComputed(T, w) ==
+  LET w1 == IF T \in FrameTypes /\ Len(w) >= BodyOff(T) + TrailerLen(T)
+            THEN LET d == Ord(EndianOf(T), CorrectLen(T, w)) IN
+                 [i \in 1..Len(w) |-> IF i > LenOff(T) /\ i <= LenOff(T) + 4 THEN d[i - LenOff(T)] ELSE w[i]]
+            ELSE w
+  IN IF T \in CsumTypes /\ Len(w1) >= BodyOff(T) + 4
+     THEN Take(w1, Len(w1) - 4) \o Ord(EndianOf(T), CorrectCsum(T, w1))
+     ELSE w1
+
 =============================================================================
